@@ -346,21 +346,36 @@ def wormBranches (bm : List (List (Nat × Rat))) (n : Nat) (startE : Rat) (doubl
       else if path'.length > n then [(w', path', s', true)]
       else wormBranches bm n startE doubles fuel w' path' last' s'
 
-/-- one-step worm kernel row from `s`: list of (probability, final state) -/
-def wormRow (ch : Rat → Rat) (bm : List (List (Nat × Rat))) (biases : List Rat) (doubles : Bool)
-    (s : List Bool) : List (Rat × List Bool) :=
+/-- every selection path of one worm update from `s`:
+(selection probability, state if accepted, state if rejected / failed, `total_he` or `none` when
+the update failed because the path got too long). Does not involve the acceptance function. -/
+def wormProposals (bm : List (List (Nat × Rat))) (biases : List Rat) (doubles : Bool)
+    (s : List Bool) : List (Rat × List Bool × List Bool × Option Rat) :=
   let n := s.length
   (List.range n).flatMap fun start =>
     let startE := deltaE bm s start none
     let s1 := flipAt s start
-    (wormBranches bm n startE doubles (n + 2) (1 / (n : Rat)) [.single start] start s1).flatMap
+    (wormBranches bm n startE doubles (n + 2) (1 / (n : Rat)) [.single start] start s1).map
       fun (w, pathRev, s2, failed) =>
         let vars := wormVars pathRev
-        let back := vars.foldl flipAt s2
-        if failed then [(w, back)]
-        else
-          let a := accProb ch (wormHe biases s2 vars)
-          [(w * a, s2), (w * (1 - a), back)]
+        (w, s2, vars.foldl flipAt s2, if failed then none else some (wormHe biases s2 vars))
+
+/-- one-step worm kernel row from `s`: list of (probability, final state) -/
+def wormRow (ch : Rat → Rat) (bm : List (List (Nat × Rat))) (biases : List Rat) (doubles : Bool)
+    (s : List Bool) : List (Rat × List Bool) :=
+  (wormProposals bm biases doubles s).flatMap fun (w, s2, back, he) =>
+    match he with
+    | none => [(w, back)]
+    | some h => [(w * accProb ch h, s2), (w * (1 - accProb ch h), back)]
+
+/-- total probability of `t` in a row -/
+def rowProb (r : List (Rat × List Bool)) (t : List Bool) : Rat :=
+  ((r.filter fun x => x.2 == t).map (·.1)).sum
+
+/-- one-step transition probability of the worm update -/
+def wormK (ch : Rat → Rat) (bm : List (List (Nat × Rat))) (biases : List Rat) (doubles : Bool)
+    (s t : List Bool) : Rat :=
+  rowProb (wormRow ch bm biases doubles s) t
 
 def spinRow (ch : Rat → Rat) (bm : List (List (Nat × Rat))) (biases : List Rat)
     (s : List Bool) : List (Rat × List Bool) :=
